@@ -1,5 +1,6 @@
 import Mimium.Model.Core
 import Mimium.Proofs.CoreRenameV
+import Mimium.Proofs.CstGrammarTrivia
 /-!
 # C16 — meaning is invariant under renaming, layout and agreeing annotations
 
@@ -9,7 +10,9 @@ variable up in the renamed environment finds the same location, for every inject
 parameters gives the renamed environment and the same store.  `C16_eval_rename` is the invariance of the whole evaluator under every injective renaming. That the real compiler
 behaves like the reference semantics here is decided by the correspondence: the real compiler is run on each generated
 program and on 8 transformed renderings of it.
-PARTIAL: the parser/type checker/mirgen handling of names is exercised, not modelled.
+PARTIAL: the type checker/mirgen handling of names is exercised, not modelled.  The PARSER is modelled (`Model/CstGrammar.lean`, literal port
+of `cst_parser.rs`, tied by C13): `C16_parse_ignores_trivia_kinds` proves that white space and comments reach the syntax tree only
+through the line-break oracle (and one diagnostic through token adjacency).
 -/
 namespace Mimium.Core
 
@@ -70,3 +73,47 @@ theorem C16_numbers_unchanged (π : String → String) (b : UInt64) : renV π (.
 example : (renameEnv (fun s => "q_" ++ s) [("a", 0), ("b", 1)]).lookup "q_b" = some 1 := by decide
 
 end Mimium.Core
+
+namespace Mimium.Props.C16
+open Mimium.Gen (Kind)
+open Mimium.Preparse Mimium.Grammar
+
+/-- LAYOUT INVARIANCE OF THE PARSER (real grammar: `Model/CstGrammar.lean`, the literal port of `cst_parser.rs` tied to the code by
+C13).  Two token lists — e.g. the same program with different white space, comments and line breaks — that have the same
+sequence of SYNTAX-token kinds (`view`), the same answers of `has_trailing_linebreak()` at every cursor position (`nl`: is there
+a line break between the previous syntax token and this one) and the same raw adjacency of consecutive syntax tokens (`adjacent`:
+read only by the "consecutive operators without whitespace" diagnostic) are parsed, for every fuel, into green trees of the same
+SHAPE (same node kinds and structure; the leaves are raw token indices, which differ), with the same error details, the same
+cursor, the same completeness flag and the same relabelled kinds.  So trivia cannot change the tree except through the line-break
+oracle: white space and comments that add no line break between two syntax tokens, and line breaks where another one already is,
+are invisible to the parser. -/
+theorem C16_parse_ignores_trivia_kinds (ks ks' : List Kind) (widths widths' : List Nat)
+    (hw : widths.length = ks.length) (hw' : widths'.length = ks'.length) (fuel : Nat)
+    (hsize : (mkEnv ks widths (preparse ks)).idx.size = (mkEnv ks' widths' (preparse ks')).idx.size)
+    (hview : ∀ i, view (mkEnv ks widths (preparse ks)) ks.toArray i = view (mkEnv ks' widths' (preparse ks')) ks'.toArray i)
+    (hnl : ∀ i, (mkEnv ks widths (preparse ks)).nl i = (mkEnv ks' widths' (preparse ks')).nl i)
+    (hadj : ∀ i, adjacent (mkEnv ks widths (preparse ks)) i = adjacent (mkEnv ks' widths' (preparse ks')) i) :
+    let r := parse (mkEnv ks widths (preparse ks)) fuel ks.toArray
+    let r' := parse (mkEnv ks' widths' (preparse ks')) fuel ks'.toArray
+    r.b.root.map Cst.Green.shape = r'.b.root.map Cst.Green.shape ∧ r.b.current = r'.b.current ∧ r.oof = r'.oof ∧
+    r.errs.map (·.detail) = r'.errs.map (·.detail) ∧
+    (∀ i, view (mkEnv ks widths (preparse ks)) r.kinds i = view (mkEnv ks' widths' (preparse ks')) r'.kinds i) := by
+  have inc : ∀ (k : List Kind) (w : List Nat), IdxInc (mkEnv k w (preparse k)) := by
+    intro k w
+    apply idxInc_of_pairwise
+    have : (mkEnv k w (preparse k)).idx.toList = syntaxIndices 0 k := by simp [mkEnv, preparse_tokenIndices]
+    rw [this]; exact syntaxIndices_pairwise k 0
+  exact parse_trivia_independent _ _ (mkEnv_ok ks widths hw) (mkEnv_ok ks' widths' hw') (inc ks widths) (inc ks' widths')
+    ks.toArray ks'.toArray fuel hsize hview hnl hadj
+
+/-- non-vacuity: `a\n(b)` and `a (b)` have the same syntax kinds but different line-break oracles — and different trees (two
+statements vs one call); `a  (b)` (more blanks) satisfies the hypotheses w.r.t. `a (b)` and has the same shape -/
+example :
+    let k1 : List Kind := [.Ident, .LineBreak, .ParenBegin, .Ident, .ParenEnd, .Eof]
+    let k2 : List Kind := [.Ident, .Whitespace, .ParenBegin, .Ident, .ParenEnd, .Eof]
+    let k3 : List Kind := [.Ident, .Whitespace, .Whitespace, .ParenBegin, .Ident, .ParenEnd, .Eof]
+    ((parseTokens k1 [1, 1, 1, 1, 1, 0]).b.root.map (·.shape.code) ≠ (parseTokens k2 [1, 1, 1, 1, 1, 0]).b.root.map (·.shape.code)) ∧
+    ((parseTokens k2 [1, 1, 1, 1, 1, 0]).b.root.map (·.shape.code) = (parseTokens k3 [1, 1, 1, 1, 1, 1, 0]).b.root.map (·.shape.code)) := by
+  decide +kernel
+
+end Mimium.Props.C16
